@@ -684,11 +684,21 @@ def run_readback(c, ctx):
     se = (v_ * v_ * d_ + d_ * v_ * v_) / ax["mu"] + 1.0
     for k_ in ("e", "ex", "ey", "ez"):
         tol[k_] = K * EPS * (cd[k_] + se)
+    hx_ = d_ * v_ / r["h"] if r["h"] > 0 else float("inf")      # >= 1; cancellation factor of r x v
     # angles from cosines
     def dl(k_):
         # the eccentricity vector ((v^2 - mu/d) r - (r.v) v)/mu carries the rounding of its two terms: K eps se; its
         # direction (omega, pomega) that divided by e
         extra = se / max(er, 1e-300) if k_ in ("omega", "pomega_planar") else 0.0
+        # the angular momentum r x v: each component is a difference of two products of size <= d v, i.e. known to
+        # eps d v absolutely, while |h| can be much smaller (near-radial motion: e -> 1 away from pericentre).  The
+        # direction of h (inc) is therefore known to eps d v/h, the node direction (Omega, and omega, u measured from
+        # it) to eps d v/(h sin inc).  Single-input perturbations do not always expose this (they can move h along a
+        # direction that leaves inc unchanged), so it is added explicitly.
+        if k_ == "inc":
+            extra += hx_
+        elif k_ in ("Omega", "omega", "u"):
+            extra += hx_ / max(abs(math.sin(r["inc"])), 1e-300)
         return K * EPS * (cd[k_] + 1.0 + extra)
     t_inc = amp(r["inc"], dl("inc"))
     t_Om = amp(r["Omega"], dl("Omega"))
@@ -747,7 +757,7 @@ def run_readback(c, ctx):
     # Pal's variables are singular at inc = pi: 1/(h + hz) in their definition cancels like 1/(1 + cos inc)
     opc = 1.0 + r["hz"] / r["h"]
     for k_ in ("pal_h", "pal_k", "pal_ix", "pal_iy"):
-        tol[k_] = K * EPS * (cd[k_] + (2.0 + se) * (1 + 1 / opc)) if (math.isfinite(r[k_]) and opc > 1e-12) else float("inf")
+        tol[k_] = K * EPS * (cd[k_] + (2.0 + se + hx_) * (1 + 1 / opc)) if (math.isfinite(r[k_]) and opc > 1e-12) else float("inf")
     # ---- element by element
     switch = abs(r["inc"] - PI / 2) < 1e-12
     for k_ in got:
@@ -1031,12 +1041,26 @@ def run_grammar(c, ctx):
         return
     ctx.cls("accept")
     if "P" in kw or "T" in kw:
-        scale_p = norm(pvec(rp)[:3]) + norm(pvec(rc)[:3])
-        scale_v = norm(pvec(rp)[3:]) + norm(pvec(rc)[3:])
+        # each front end forms a (from P) or M = n (t - T) in its own order of operations: each may be off by the
+        # forward map's conditioning (which carries eps |M| for the unreduced mean anomaly, eps |t|, eps |T| ...), so
+        # the two may differ by twice the tolerance of the forward sub-check
+        import mpmath as mp
+        from ..oracles import c11_elements_mp as O
+        mkw = {k_: v for k_, v in kw.items() if k_ not in ("m", "r", "hash")}
+        m_ = kw.get("m", 0.0)
+        ref, el, cpos, cvel, apos, avel = O.forward_with_cond(c["G"], m_, c["prim"]["m"], c["t"], mkw, pal)
+        rpos = float(mp.sqrt(sum(x * x for x in ref[:3])))
+        rvel = float(mp.sqrt(sum(x * x for x in ref[3:])))
+        e_el, f_el = float(el[1]), float(el[5])
+        par = (1 + e_el * e_el) / abs(1 - e_el * e_el) + (1 + e_el) / max(abs(1 + e_el * math.cos(f_el)), 1e-300)
+        tol_p = 2 * (K * EPS * (float(cpos) + rpos * (1 + par) + norm(c["prim"]["pos"])) + 4 * float(apos))
+        tol_v = 2 * (K * EPS * (float(cvel) + rvel * (1 + par) * (1 + e_el) + norm(c["prim"]["vel"])) + 4 * float(avel))
         d = norm([a_ - b_ for a_, b_ in zip(pvec(rp)[:3], pvec(rc)[:3])])
         dv = norm([a_ - b_ for a_, b_ in zip(pvec(rp)[3:], pvec(rc)[3:])])
-        if d > K * EPS * scale_p * 8 or dv > K * EPS * scale_v * 8:
-            raise Violation("front ends differ beyond rounding for P/T input: |dr|=%.3e |dv|=%.3e" % (d, dv), kw=kw)
+        ctx.stat_max("PT_frontend_diff_over_tol", max(d / tol_p, dv / tol_v))
+        if d > tol_p or dv > tol_v:
+            raise Violation("front ends differ beyond rounding for P/T input: |dr|=%.3e (allowed %.3e) |dv|=%.3e (allowed %.3e)"
+                            % (d, tol_p, dv, tol_v), kw=kw)
         if (rp.m, rp.r, rp.hash.value) != (rc.m, rc.r, rc.hash.value):
             raise Violation("front ends differ in m/r/hash", kw=kw)
     elif bits(rp) != bits(rc):
